@@ -1,4 +1,5 @@
 import RoutinatorModel.Proofs.ServerSched
+import RoutinatorModel.Model.History
 /-!
 # C15 — Responses pair each serial with its own data
 
@@ -167,6 +168,26 @@ theorem C15_no_data_before_first_update (keep : Nat) (s : State)
 theorem C15_current_is_data_of_serial (keep : Nat) (s : State) (hr : Reach (sys keep) s)
     (ha : s.active = true) : dataAt s.log s.serial = some s.cur :=
   dataAt_head _ _ _ ((C15_inv_reach keep s hr).1.head ha)
+
+/-- One `push_delta` rule: the retention rule of this model is the one of `Model/History.lean`
+(C13/C14, the repaired `len >= max(keep, 1)`), under any abstraction `f` of the real deltas. -/
+theorem C15_pushDelta_agrees_with_history_model (h : History) (d : PayloadDelta)
+    (f : PayloadDelta → Delta) :
+    (h.pushDelta d).deltas.map f = pushDelta h.keep (h.deltas.map f) (f d) := by
+  unfold History.pushDelta ServerSched.pushDelta
+  simp only [List.map_cons, List.length_map]
+  split <;> simp [List.map_dropLast]
+
+/-- Non-vacuity with `keep = 0` (one delta is retained all the same): the newest delta serves a
+client one version behind; older clients get a reset / refusal. -/
+example :
+    ((sys 0).run (init 0)
+      [.u 10, .u 10, .u 10, .u 10, .u 10, .u 10, .u 11, .u 11, .u 11, .u 11, .u 11,
+       .u 12, .u 12, .u 12, .u 12, .req (.httpDelta true 1), .req (.rtrDiff true 0),
+       .req (.httpDelta true 0), .req .httpData]).map
+        (fun s => (s.deltas.length, s.resps.map (·.payload)))
+      = some (1, [.full 2 12, .full 2 12, .refused, .delta 1 2 11 12]) := by
+  decide
 
 /-- Non-vacuity: requests before the first install (no data), between runs and in the middle of
 runs, over four versions with `keep = 3`: full sets, a one-step change set, a merged change set
